@@ -348,7 +348,12 @@ pub struct DynResolve { _p: () }
 #[verifier::external_body]
 #[verifier::reject_recursive_types(T)]
 pub struct Rc<T> { _p: core::marker::PhantomData<T> }
-impl<T> Rc<T> { #[verifier::external_body] pub fn clone(r: &Rc<T>) -> (o: Rc<T>) { unimplemented!() } }
+impl<T> Rc<T> {
+    /// the value the Rc points to
+    pub uninterp spec fn inner(&self) -> T;
+    #[verifier::external_body] pub fn new(t: T) -> (o: Rc<T>) ensures o.inner() == t { unimplemented!() }
+    #[verifier::external_body] pub fn clone(r: &Rc<T>) -> (o: Rc<T>) ensures o.inner() == r.inner() { unimplemented!() }
+}
 #[verifier::external_body]
 pub struct AsyncBlock { _p: () }
 #[verifier::external_body]
@@ -357,8 +362,9 @@ impl Box<AsyncBlock> {
     #[verifier::external_body]
     pub fn pin<R: Host>(b: AsyncBlock) -> (r: LocalBoxFuture<'static, Result<ConnectInfo<R>, ConnectError>>) { unimplemented!() }
 }
-/// a custom resolver's `lookup` (user code, NOT verified).  PROPHECY name `lookup_outcome(host, port)`: its answer.
-pub uninterp spec fn lookup_outcome(host: Str, port: u16) -> Result<Vec<SocketAddr>, Box<dyn std::error::Error>>;
+/// a custom resolver's `lookup` (user code, NOT verified).  PROPHECY name `lookup_outcome(resolver, host, port)`: the
+/// answer of THAT resolver.
+pub uninterp spec fn lookup_outcome(resolver: DynResolve, host: Str, port: u16) -> Result<Vec<SocketAddr>, Box<dyn std::error::Error>>;
 #[verifier::external_body]
 pub struct LookupFut { _p: () }
 #[verifier::external]
@@ -369,7 +375,7 @@ impl Future for LookupFut {
 impl Rc<DynResolve> {
     #[verifier::external_body]
     pub fn lookup(&self, host: &Str, port: u16) -> (r: LookupFut)
-        ensures r@ == lookup_outcome(*host, port),
+        ensures r@ == lookup_outcome(self.inner(), *host, port),
     { unimplemented!() }
 }
 pub enum ResolverKind { Default, Custom(Rc<DynResolve>) }
@@ -406,7 +412,7 @@ impl From<Option<SocketAddr>> for ConnectAddrs {
     ensures
         // the custom resolver is asked for the request's host and port; its failure is `Resolver`, an empty answer is
         // `NoRecords`, otherwise the request goes on carrying exactly the answer, in order   [C19]
-        match lookup_outcome(req.request.spec_hostname(), (match req.request.spec_port() { Some(p) => p, None => req.port })) {
+        match lookup_outcome(resolver.inner(), req.request.spec_hostname(), (match req.request.spec_port() { Some(p) => p, None => req.port })) {
             Err(e) => r == Err::<ConnectInfo<R>, ConnectError>(ConnectError::Resolver(e)),
             Ok(v) => if v@.len() == 0 { r == Err::<ConnectInfo<R>, ConnectError>(ConnectError::NoRecords) }
                      else { r matches Ok(c) && c.addr.list() == v@ && c.addr_wf() && c.request == req.request && c.port == req.port && c.local_addr == req.local_addr },
@@ -508,6 +514,82 @@ impl ConnectorService {
         // every request starts at the resolve step, whose precedence rules are `ResolverService::call`'s   [C19]
         r.fut is Resolve, r.fut.pollable(),
         !(req.addr is None) ==> r.fut == ConnectFut::Resolve(ResolverFut::Resolved(Some(req))),
+//@end
+}
+
+
+// ===================================================================== the factories: the configured resolver reaches the service (C19)
+impl ResolverKind {
+    pub open spec fn same(&self, o: &ResolverKind) -> bool {
+        match (*self, *o) {
+            (ResolverKind::Default, ResolverKind::Default) => true,
+            (ResolverKind::Custom(a), ResolverKind::Custom(b)) => a.inner() == b.inner(),
+            _ => false,
+        }
+    }
+}
+/// `#[derive(Clone)]` on ResolverService / Resolver (derived: field-wise; an Rc clone points to the same resolver)
+impl Clone for ResolverService {
+    #[verifier::external_body]
+    fn clone(&self) -> (r: ResolverService) ensures r.kind.same(&self.kind) { unimplemented!() }
+}
+impl ResolverKind {
+//@extract file=actix-tls/src/connect/resolver.rs item="impl Default for ResolverKind / fn default" ret=r props=C19 name=resolver::kind_default
+//@spec
+    ensures r is Default,   // [C19] without configuration the built-in resolver is used
+//@end
+}
+/// `#[derive(Default)]` on ResolverService / Resolver: field-wise defaults
+impl ResolverService { pub fn default() -> (r: ResolverService) ensures r.kind is Default { ResolverService { kind: ResolverKind::default() } } }
+impl Resolver { pub fn default() -> (r: Resolver) ensures r.resolver.kind is Default { Resolver { resolver: ResolverService::default() } } }
+impl ResolverService {
+//@extract file=actix-tls/src/connect/resolver.rs item="impl ResolverService / fn custom" ret=r props=C19 name=resolver::service_custom sig_replace="resolver: impl Resolve + 'static=>resolver: DynResolve"
+//@spec
+    ensures r.kind matches ResolverKind::Custom(rc) && rc.inner() == resolver,   // [C19]
+//@end
+}
+//@check_struct file=actix-tls/src/connect/resolver.rs name=Resolver fields=resolver
+pub struct Resolver { pub resolver: ResolverService }
+/// actix_utils::future::{ok, Ready}
+#[verifier::reject_recursive_types(T)]
+pub struct Ready<T> { pub val: Option<T> }
+pub fn ok<T, E>(t: T) -> (r: Ready<Result<T, E>>) ensures r.val == Some(Ok::<T, E>(t)) { Ready { val: Some(Ok(t)) } }
+impl Resolver {
+//@extract file=actix-tls/src/connect/resolver.rs item="impl Resolver / fn custom" ret=r props=C19 name=resolver::factory_custom sig_replace="resolver: impl Resolve + 'static=>resolver: DynResolve"
+//@spec
+    ensures r.resolver.kind matches ResolverKind::Custom(rc) && rc.inner() == resolver,   // [C19] the user's resolver is the one configured
+//@end
+//@extract file=actix-tls/src/connect/resolver.rs item="impl Resolver / fn service" ret=r props=C19 name=resolver::factory_service
+//@spec
+    ensures r.kind.same(&self.resolver.kind),   // [C19] every service built from the factory uses the configured resolver
+//@end
+//@extract file=actix-tls/src/connect/resolver.rs item="impl<R: Host> ServiceFactory<ConnectInfo<R>> for Resolver / fn new_service" ret=r props=C19 name=resolver::factory_new_service sig_replace="fn new_service(&self, _: ())=>fn new_service(&self, _unused: ())"
+//@spec
+    ensures r.val matches Some(Ok(svc)) && svc.kind.same(&self.resolver.kind),   // [C19]
+//@end
+}
+//@check_struct file=actix-tls/src/connect/connector.rs name=Connector fields=resolver
+pub struct Connector { pub resolver: Resolver }
+pub struct TcpConnector;
+impl TcpConnector {
+    pub fn default() -> (r: TcpConnector) { TcpConnector }
+//@extract file=actix-tls/src/connect/tcp.rs item="impl TcpConnector / fn service" ret=r props=C19 name=tcp::connector_service
+//@spec
+//@end
+}
+impl TcpConnectorService { pub fn default() -> (r: TcpConnectorService) { TcpConnectorService } }
+impl Connector {
+//@extract file=actix-tls/src/connect/connector.rs item="impl Connector / fn new" ret=r props=C19 name=connector::factory_new
+//@spec
+    ensures r.resolver == resolver,
+//@end
+//@extract file=actix-tls/src/connect/connector.rs item="impl Connector / fn service" ret=r props=C19 name=connector::factory_service
+//@spec
+    ensures r.resolver.kind.same(&self.resolver.resolver.kind),   // [C19] the connector resolves with the resolver it was built with
+//@end
+//@extract file=actix-tls/src/connect/connector.rs item="impl<R: Host> ServiceFactory<ConnectInfo<R>> for Connector / fn new_service" ret=r props=C19 name=connector::factory_new_service sig_replace="fn new_service(&self, _: ())=>fn new_service(&self, _unused: ())"
+//@spec
+    ensures r.val matches Some(Ok(svc)) && svc.resolver.kind.same(&self.resolver.resolver.kind),   // [C19]
 //@end
 }
 
